@@ -95,12 +95,85 @@ class Extractor(object):
         for r in reversed(rs[:-1]):
             # distinguishing condition: first cond of r not shared with the later ones
             cond = ("bool", "and", tuple(_polar(c, p) for c, p in r.conds)) if r.conds else ("const", True)
-            term = ("phi", cond, r.term, term)
+            term = mkphi(cond, r.term, term)
         return term
 
 
 def _polar(c, p):
-    return c if p else ("not", c)
+    return c if p else mknot(c)
+
+
+def mknot(c):
+    """negation in normal form: not not x == x (as a truth value); not (a is b) == a is not b ..."""
+    if c[0] == "not":
+        return c[1]
+    if c[0] == "const":
+        return ("const", not c[1])
+    return ("not", c)
+
+
+_NEG_CMP = {"Is": "IsNot", "IsNot": "Is", "Eq": "NotEq", "NotEq": "Eq", "In": "NotIn", "NotIn": "In"}
+REGEX_TESTS = ("match", "search", "fullmatch")
+# re module functions taking the pattern first -> max positional args without a flags argument
+_RE_FUNCS = {"re.match": 2, "re.search": 2, "re.fullmatch": 2, "re.sub": 4, "re.subn": 4, "re.split": 3, "re.findall": 2, "re.finditer": 2}
+
+
+def is_regex_test(t):
+    """result of a regex test (a match object or None): truthiness == `is not None`"""
+    return t[0] == "call" and (t[1] in ("re.match", "re.search", "re.fullmatch") or t[1].rpartition(".")[2] in REGEX_TESTS and t[1].startswith("ural."))
+
+
+def mkcmp(op, l, r):
+    """`m is None` / `m is not None` on a regex test result are `not m` / `m`."""
+    if op in ("Is", "IsNot", "Eq", "NotEq") and r == ("const", None) and is_regex_test(l):
+        return mknot(l) if op in ("Is", "Eq") else l
+    # comparisons are kept in their positive spelling: a != b is not (a == b), x is None is not (x is not None)
+    if op in ("NotEq", "NotIn"):
+        return ("not", ("cmp", op[3:], l, r))
+    if op == "Is" and r == ("const", None):
+        return ("not", ("cmp", "IsNot", l, r))
+    return ("cmp", op, l, r)
+
+
+def _norm_cond(c, pol):
+    while True:
+        if c[0] == "not":
+            c, pol = c[1], not pol
+            continue
+        if c[0] == "bool" and len(c[2]) == 1:
+            c = c[2][0]
+            continue
+        if c[0] == "cmp" and c[1] == "Is" and c[3] == ("const", None):
+            c, pol = ("cmp", "IsNot", c[2], c[3]), not pol
+            continue
+        if c[0] == "cmp" and c[1] in ("NotEq", "NotIn"):
+            c, pol = ("cmp", c[1][3:], c[2], c[3]), not pol
+            continue
+        return (c, pol)
+
+
+def mkphi(c, a, b):
+    """phi in normal form: the condition is never a negation, a one-element and/or, or a constant;
+    `x is None ? a : b` is written `x is not None ? b : a`."""
+    while True:
+        if c[0] == "not":
+            c, a, b = c[1], b, a
+            continue
+        if c[0] == "bool" and len(c[2]) == 1:
+            c = c[2][0]
+            continue
+        if c[0] == "cmp" and c[1] == "Is" and c[3] == ("const", None):
+            c, a, b = ("cmp", "IsNot", c[2], c[3]), b, a
+            continue
+        if c[0] == "cmp" and c[1] in ("NotEq", "NotIn"):
+            c, a, b = ("cmp", c[1][3:], c[2], c[3]), b, a
+            continue
+        break
+    if c[0] == "const":
+        return a if c[1] else b
+    if a == b:
+        return a
+    return ("phi", c, a, b)
 
 
 def _hashable(v):
@@ -232,10 +305,10 @@ class _State(object):
     def if_(self, st):
         c = self.expr(st.test)
         a = self.fork()
-        a.conds = self.conds + [(c, True)]
+        a.conds = self.conds + [_norm_cond(c, True)]
         a.block(st.body)
         b = self.fork()
-        b.conds = self.conds + [(c, False)]
+        b.conds = self.conds + [_norm_cond(c, False)]
         b.block(st.orelse)
         self.rets = a.rets if a.rets is self.rets else self.rets
         self.join(c, a, b)
@@ -254,7 +327,7 @@ class _State(object):
             for k in set(a.env) | set(b.env):
                 va = a.env.get(k, ("unbound", k))
                 vb = b.env.get(k, ("unbound", k))
-                env[k] = va if va == vb else ("phi", c, va, vb)
+                env[k] = va if va == vb else mkphi(c, va, vb)
             self.env = env
         elif a.live:
             self.env = a.env
@@ -340,7 +413,7 @@ class _State(object):
             return ("binop", type(n.op).__name__, self.expr(n.left), self.expr(n.right))
         if isinstance(n, ast.UnaryOp):
             if isinstance(n.op, ast.Not):
-                return ("not", self.expr(n.operand))
+                return mknot(self.expr(n.operand))
             v = self.expr(n.operand)
             if isinstance(n.op, ast.USub) and v[0] == "const" and isinstance(v[1], (int, float)):
                 return ("const", -v[1])
@@ -349,7 +422,7 @@ class _State(object):
             return ("bool", "and" if isinstance(n.op, ast.And) else "or", tuple(self.expr(v) for v in n.values))
         if isinstance(n, ast.Compare):
             if len(n.ops) == 1:
-                return ("cmp", type(n.ops[0]).__name__, self.expr(n.left), self.expr(n.comparators[0]))
+                return mkcmp(type(n.ops[0]).__name__, self.expr(n.left), self.expr(n.comparators[0]))
             parts = []
             left = n.left
             for op, right in zip(n.ops, n.comparators):
@@ -358,7 +431,7 @@ class _State(object):
             return ("bool", "and", tuple(parts))
         if isinstance(n, ast.IfExp):
             c = self.expr(n.test)
-            return ("phi", c, self.expr(n.body), self.expr(n.orelse))
+            return mkphi(c, self.expr(n.body), self.expr(n.orelse))
         if isinstance(n, ast.Subscript):
             base = self.expr(n.value)
             if isinstance(n.slice, ast.Slice):
@@ -396,10 +469,7 @@ class _State(object):
         return ("unknown", type(n).__name__)
 
     def global_name(self, name):
-        rec = self.module.last_binding(name)
-        if rec is not None and rec[0] == "import" and self.repo.has_mod(rec[1]) if rec and rec[0] == "import" and rec[1] else False:
-            return "%s.%s" % (rec[1], rec[2])
-        return "%s.%s" % (self.module.name, name)
+        return self.repo.canon(self.module, name)
 
     def comp(self, n):
         saved = dict(self.env)
@@ -444,8 +514,14 @@ class _State(object):
             dn = self.repo.dotted(self.module, f)
             if dn is not None:
                 qn = dn
+                # re.fn(PATTERN, ...) with a module-level pattern == PATTERN.fn(...)
+                nmax = _RE_FUNCS.get(qn)
+                if nmax is not None and args and args[0][0] == "global" and len(args) <= nmax and not any(k in ("flags", "**") for k, _ in kwargs):
+                    return ("call", "%s.%s" % (args[0][1], qn[3:]), args[1:], kwargs)
             else:
                 recv = self.expr(f.value)
+                if recv[0] == "global" and ("re." + f.attr) in _RE_FUNCS and self._is_regex_global(recv[1]):
+                    return ("call", "%s.%s" % (recv[1], f.attr), args, kwargs)
                 return ("method", f.attr, recv, args, kwargs)
         else:
             return ("callv", self.expr(f), args, kwargs)
@@ -453,31 +529,48 @@ class _State(object):
             return ("call", "?" + unparse(f), args, kwargs)
         return self.apply(qn, args, kwargs, n)
 
-    def apply(self, qn, args, kwargs, node=None):
+    def _is_regex_global(self, qual):
+        from .srcmodel import Regex
+        modname, _, name = qual.rpartition(".")
+        if not self.repo.has_mod(modname):
+            return False
+        try:
+            return isinstance(self.repo.const(modname, name), Regex)
+        except (Unknown, AnalysisError):
+            return False
+
+    def apply(self, qn, args, kwargs, node=None, label=None):
         ex = self.ex
+        label = label or qn
         # partial application bound at module level
-        if qn.startswith(self.repo.package + ".") and qn not in ex.atomic:
+        if qn.startswith(self.repo.package + ".") and label not in ex.atomic:
             modname, _, name = qn.rpartition(".")
             if self.repo.has_mod(modname):
                 m = self.repo.mod(modname)
                 rec = m.last_binding(name)
                 if rec is not None and rec[0] == "import" and rec[1] and self.repo.has_mod(rec[1]):
-                    return self.apply("%s.%s" % (rec[1], rec[2]), args, kwargs, node)
+                    return self.apply("%s.%s" % (rec[1], rec[2]), args, kwargs, node, label)
                 if rec is not None and rec[0] == "import" and rec[1]:
                     return ("call", "%s.%s" % (rec[1], rec[2]), args, kwargs)
-                if rec is not None and rec[0] == "def" and self.depth < ex.inline_depth and qn not in ex._stack:
+                if rec is not None and rec[0] == "def" and self.depth < ex.inline_depth and label not in ex._stack:
                     fn = rec[1]
                     is_gen = any(isinstance(x, (ast.Yield, ast.YieldFrom)) for x in ast.walk(fn))
                     if not is_gen and not any(k == "**" for k, _ in kwargs) and not any(a[0] == "starred" for a in args):
-                        ex._stack.append(qn)
+                        ex._stack.append(label)
                         try:
-                            rets = ex.function(FuncRef(m, fn, qn), list(args), dict(kwargs), self.depth + 1)
+                            rets = ex.function(FuncRef(m, fn, label), list(args), dict(kwargs), self.depth + 1)
                         finally:
                             ex._stack.pop()
-                        return ("inl", qn, ex.result_term(rets))
+                        return ("inl", label, ex.result_term(rets))
                 if rec is not None and rec[0] == "assign" and isinstance(rec[1], ast.Name):
-                    return self.apply(self.repo.resolve(m, rec[1].id).qualname if self.repo.resolve(m, rec[1].id) else qn + "?", args, kwargs, node)
-        return ("call", qn, args, kwargs)
+                    site = self.repo.def_site(m, name)
+                    if site is not None and "%s.%s" % site != qn:
+                        return self.apply("%s.%s" % site, args, kwargs, node)
+                    r2 = self.repo.resolve(m, rec[1].id)
+                    if r2 is not None and r2.qualname != qn:
+                        return self.apply(r2.qualname, args, kwargs, node)
+                    return ("call", qn + "?", args, kwargs)
+        return ("call", label, args, kwargs)
 
 
 # ----------------------------------------------------------------------
